@@ -25,7 +25,7 @@ for pid in props:
             "quick_cmd": f"./check {pid} --tier quick",
             "thorough_cmd": f"./check {pid} --tier thorough",
             "evidence_file": f"/verif/evidence/{pid}.json",
-            "replay_cmd_template": f"./check {pid} --tier quick   # replay file {{path}} holds the failing case",
+            "replay_cmd_template": f"./check {pid} --replay {{path}}",
             "engine": "tlc+harness",
             "level_claimed": {"category": "model_checking", "text": text, "design_ref": ref},
             "level_note": note,
